@@ -410,14 +410,26 @@ func ErrClass(err error) string {
 	return "other:" + s
 }
 
+// Current is the key of the scenario most recently offered to Only / OnlyGroup (the one a panic of
+// the main goroutine is attributed to).
+var Current string
+
 // Only reports whether scenario key k is selected (VERIF_ONLY unset = all).
 func Only(k string) bool {
 	o := os.Getenv("VERIF_ONLY")
-	return o == "" || o == k
+	if o == "" || o == k {
+		Current = k
+		return true
+	}
+	return false
 }
 
 // OnlyGroup is Only for a scenario that emits several records keyed k+"/"+label.
 func OnlyGroup(k string) bool {
 	o := os.Getenv("VERIF_ONLY")
-	return o == "" || o == k || strings.HasPrefix(o, k+"/")
+	if o == "" || o == k || strings.HasPrefix(o, k+"/") {
+		Current = k
+		return true
+	}
+	return false
 }
